@@ -1,1 +1,338 @@
-(* placeholder *)
+(* Proofs/C13.v — array (CSE) formulas: target shape and pointwise lifting. *)
+From Coq Require Import ZArith QArith List Bool Arith Lia.
+From PV Require Import Lib.Py Model.Ops Model.Arrays Proofs.PyTac Proofs.C10.
+From PV Require Gen.excelutil Gen.arrayfit.
+Import ListNotations.
+Open Scope Z_scope.
+
+(* ================================================================ lists *)
+Lemma rep_list_length {A} n (l : list A) : length (rep_list n l) = (n * length l)%nat.
+Proof. induction n; cbn [rep_list]; [reflexivity|]. rewrite app_length, IHn. lia. Qed.
+
+Lemma rep_list_single {A} n (x : A) : rep_list n [x] = repeat x n.
+Proof. induction n; cbn [rep_list repeat app]; congruence. Qed.
+
+Lemma rep_list_map {A B} (f : A -> B) n l : rep_list n (map f l) = map f (rep_list n l).
+Proof. induction n; cbn [rep_list map]; [reflexivity|]. rewrite map_app, IHn. reflexivity. Qed.
+
+Lemma nth_error_repeat {A} (x : A) n k : (k < n)%nat -> nth_error (repeat x n) k = Some x.
+Proof.
+  revert k. induction n; intros k Hk; [lia|]. destruct k; cbn [repeat nth_error]; [reflexivity|].
+  apply IHn. lia.
+Qed.
+
+Lemma nth_error_firstn_lt {A} (l : list A) n k : (k < n)%nat -> nth_error (firstn n l) k = nth_error l k.
+Proof.
+  revert n k. induction l as [|x l IH]; intros n k Hk.
+  - rewrite firstn_nil. reflexivity.
+  - destruct n; [lia|]. destruct k; cbn [firstn nth_error]; [reflexivity|]. apply IH. lia.
+Qed.
+
+Lemma zlen_map {A B} (f : A -> B) l : zlen (map f l) = zlen l.
+Proof. unfold zlen. rewrite map_length. reflexivity. Qed.
+
+Lemma Forall_rep_list {A} (P : A -> Prop) n l : Forall P l -> Forall P (rep_list n l).
+Proof. intros H. induction n; cbn [rep_list]; [constructor|]. apply Forall_app. split; assumption. Qed.
+
+Lemma Forall_firstn {A} (P : A -> Prop) n l : Forall P l -> Forall P (firstn n l).
+Proof.
+  intros H. revert n. induction H; intros n; destruct n; cbn [firstn]; constructor; auto.
+Qed.
+
+(* ============================================================= fit_axis *)
+Section FitAxis.
+  Context {A : Type}.
+  Variables (fill : A) (l : list A) (n : Z).
+  Hypothesis Hn : 1 <= n.
+  Hypothesis Hl : (1 <= length l)%nat.
+
+  Lemma fit_axis_length : length (fit_axis n (zlen l) fill l) = Z.to_nat n.
+  Proof.
+    unfold fit_axis, zlen, seq_mul.
+    destruct (Z.eqb_spec (Z.of_nat (length l)) 1) as [E1|E1]; cbn [andb].
+    - destruct (Z.eqb_spec n 1) as [En|En]; cbn [negb].
+      + replace (n <? Z.of_nat (length l)) with false by (symmetry; apply Z.ltb_ge; lia).
+        replace (Z.of_nat (length l) <? n) with false by (symmetry; apply Z.ltb_ge; lia). lia.
+      + rewrite rep_list_length. nia.
+    - destruct (Z.ltb_spec n (Z.of_nat (length l))) as [L1|L1].
+      + rewrite firstn_length. lia.
+      + destruct (Z.ltb_spec (Z.of_nat (length l)) n) as [L2|L2].
+        * rewrite app_length, rep_list_length. cbn [length]. lia.
+        * lia.
+  Qed.
+
+  Lemma fit_axis_nth k : (k < Z.to_nat n)%nat ->
+    nth_error (fit_axis n (zlen l) fill l) k
+    = Some match nth_error l (if Nat.eqb (length l) 1 then O else k) with
+           | Some x => x | None => fill end.
+  Proof.
+    intros Hk. unfold fit_axis, zlen, seq_mul.
+    destruct (Z.eqb_spec (Z.of_nat (length l)) 1) as [E1|E1]; cbn [andb].
+    - replace (Nat.eqb (length l) 1) with true by (symmetry; apply Nat.eqb_eq; lia).
+      destruct l as [|x [|y l']]; cbn [length] in *; try lia. cbn [nth_error].
+      destruct (Z.eqb_spec n 1) as [En|En]; cbn [negb].
+      + replace (n <? Z.of_nat 1) with false by (symmetry; apply Z.ltb_ge; lia).
+        replace (Z.of_nat 1 <? n) with false by (symmetry; apply Z.ltb_ge; lia).
+        replace k with O by lia. reflexivity.
+      + rewrite rep_list_single. apply nth_error_repeat. exact Hk.
+    - replace (Nat.eqb (length l) 1) with false by (symmetry; apply Nat.eqb_neq; lia).
+      destruct (Z.ltb_spec n (Z.of_nat (length l))) as [L1|L1].
+      + rewrite nth_error_firstn_lt by exact Hk.
+        destruct (nth_error l k) eqn:E; [reflexivity|].
+        apply nth_error_None in E. lia.
+      + destruct (Z.ltb_spec (Z.of_nat (length l)) n) as [L2|L2].
+        * destruct (Nat.lt_ge_cases k (length l)) as [K|K].
+          -- rewrite nth_error_app1 by exact K.
+             destruct (nth_error l k) eqn:E; [reflexivity|]. apply nth_error_None in E. lia.
+          -- rewrite nth_error_app2 by exact K. rewrite rep_list_single.
+             rewrite nth_error_repeat by lia.
+             destruct (nth_error l k) eqn:E; [|reflexivity].
+             assert (nth_error l k <> None) as N by congruence. apply nth_error_Some in N. lia.
+        * destruct (nth_error l k) eqn:E; [reflexivity|]. apply nth_error_None in E. lia.
+  Qed.
+
+  Lemma fit_axis_Forall (P : A -> Prop) : Forall P l -> P fill -> Forall P (fit_axis n (zlen l) fill l).
+  Proof.
+    intros Hall Hf. unfold fit_axis, seq_mul.
+    destruct ((zlen l =? 1) && negb (n =? 1)); [apply Forall_rep_list; exact Hall|].
+    destruct (n <? zlen l); [apply Forall_firstn; exact Hall|].
+    destruct (zlen l <? n); [|exact Hall].
+    apply Forall_app. split; [exact Hall|]. apply Forall_rep_list. constructor; [exact Hf|constructor].
+  Qed.
+End FitAxis.
+
+(* ============================================================= fit_spec *)
+Definition rectangular (C : nat) (rows : list (list pyval)) : Prop :=
+  Forall (fun r => length r = C) rows.
+
+(* element (i, j) of a matrix *)
+Definition elem2 (m : list (list pyval)) (i j : nat) : option pyval :=
+  match nth_error m i with Some r => nth_error r j | None => None end.
+
+(* the element the statement asks for at (i, j) of the target: the result's
+   own element, with a single row / column / scalar repeated, #N/A outside *)
+Definition fit_elem (rows : list (list pyval)) (i j : nat) : pyval :=
+  let ii := if Nat.eqb (length rows) 1 then O else i in
+  let jj := if Nat.eqb (length (hd [] rows)) 1 then O else j in
+  match elem2 rows ii jj with Some x => x | None => NA end.
+
+Lemma hd_length C r0 rest : rectangular C (r0 :: rest) -> length (hd [] (r0 :: rest)) = C.
+Proof. intros H. inversion H; subst. reflexivity. Qed.
+
+Lemma fit_spec_shape rows C h w :
+  rows <> [] -> (1 <= C)%nat -> rectangular C rows -> 1 <= h -> 1 <= w ->
+  length (fit_spec h w rows) = Z.to_nat h /\ rectangular (Z.to_nat w) (fit_spec h w rows).
+Proof.
+  intros Hne HC Hrect Hh Hw. unfold fit_spec.
+  destruct rows as [|r0 rest]; [congruence|].
+  pose proof (hd_length C r0 rest Hrect) as Hhd.
+  set (rows := r0 :: rest) in *.
+  assert (Hlen : (1 <= length (map (fit_axis w (zlen (hd [] rows)) NA) rows))%nat)
+    by (rewrite map_length; unfold rows; cbn [length]; apply le_n_S, Nat.le_0_l).
+  rewrite <- (zlen_map (fit_axis w (zlen (hd [] rows)) NA) rows).
+  split.
+  - apply fit_axis_length; assumption.
+  - apply fit_axis_Forall.
+    + apply Forall_map. unfold rectangular in Hrect.
+      eapply Forall_impl; [|exact Hrect]. intros r Hr. cbv beta in Hr |- *.
+      replace (zlen (hd [] rows)) with (zlen r) by (unfold zlen; rewrite Hhd, Hr; reflexivity).
+      apply fit_axis_length; [exact Hw|lia].
+    + unfold seq_mul. rewrite rep_list_length. cbn [length]. lia.
+Qed.
+
+Lemma fit_spec_elem rows C h w i j :
+  rows <> [] -> (1 <= C)%nat -> rectangular C rows -> 1 <= h -> 1 <= w ->
+  (i < Z.to_nat h)%nat -> (j < Z.to_nat w)%nat ->
+  elem2 (fit_spec h w rows) i j = Some (fit_elem rows i j).
+Proof.
+  intros Hne HC Hrect Hh Hw Hi Hj. unfold fit_spec, elem2, fit_elem.
+  destruct rows as [|r0 rest]; [congruence|].
+  pose proof (hd_length C r0 rest Hrect) as Hhd.
+  set (rows := r0 :: rest) in *.
+  assert (Hlen : (1 <= length (map (fit_axis w (zlen (hd [] rows)) NA) rows))%nat)
+    by (rewrite map_length; unfold rows; cbn [length]; apply le_n_S, Nat.le_0_l).
+  rewrite <- (zlen_map (fit_axis w (zlen (hd [] rows)) NA) rows).
+  rewrite fit_axis_nth by assumption.
+  rewrite map_length. rewrite nth_error_map.
+  set (ii := if Nat.eqb (length rows) 1 then O else i).
+  destruct (nth_error rows ii) as [r|] eqn:Er; cbn [option_map].
+  - assert (Hr : length r = C).
+    { unfold rectangular in Hrect. rewrite Forall_forall in Hrect. apply Hrect.
+      eapply nth_error_In. exact Er. }
+    replace (zlen (hd [] rows)) with (zlen r) by (unfold zlen; rewrite Hhd, Hr; reflexivity).
+    rewrite fit_axis_nth by (try assumption; lia). rewrite Hr, Hhd. unfold elem2. rewrite Er. reflexivity.
+  - unfold seq_mul. rewrite rep_list_single. rewrite nth_error_repeat by exact Hj.
+    unfold elem2. rewrite Er. reflexivity.
+Qed.
+
+(* ===================================== the translated fit_to_range = fit_spec *)
+Lemma list_like_tuple l : excelutil.f_list_like (VTuple l) = Ok (VBool true).
+Proof. reflexivity. Qed.
+
+Lemma index0_rows r0 rest : index_nth (map VTuple (r0 :: rest)) 0 = Some (VTuple r0).
+Proof. cbn [map]. apply index_nth_0. Qed.
+
+Lemma genexp_rows (elt : pyval -> res pyval) (g : list pyval -> list pyval) rows :
+  (forall r, elt (VTuple r) = Ok (VTuple (g r))) ->
+  genexp elt (fun _ => Ok true) (map VTuple rows) = Ok (map VTuple (map g rows)).
+Proof.
+  intros H. induction rows as [|r rows IH]; [reflexivity|].
+  cbn [map genexp bind]. rewrite H, IH. reflexivity.
+Qed.
+
+Lemma slice_firstn {A} (l : list A) w : 0 <= w -> slice_list l None (Some w) = firstn (Z.to_nat w) l.
+Proof.
+  intros Hw. unfold slice_list, clamp_idx.
+  replace (w <? 0) with false by (symmetry; apply Z.ltb_ge; lia).
+  replace (Z.to_nat 0) with O by reflexivity. cbn [skipn]. rewrite Z.sub_0_r.
+  destruct (Z.le_ge_cases w (zlen l)) as [L|L].
+  - rewrite Z.min_r, Z.max_r by lia. reflexivity.
+  - rewrite Z.min_l, Z.max_r by (unfold zlen in *; lia).
+    unfold zlen in *. rewrite !firstn_all2 by lia. reflexivity.
+Qed.
+
+Lemma index0 rows r0 rest : rows = r0 :: rest -> index_nth (map VTuple rows) 0 = Some (VTuple r0).
+Proof. intros ->. apply index0_rows. Qed.
+
+Lemma height_ok h w n (R : list (list pyval)) : 1 <= h ->
+  (c_0 <- (if n =? 1 then Ok (negb (h =? 1)) else Ok false);;
+   (if c_0 then Ok (VTuple (seq_mul (map VTuple R) h))
+    else if h <? n then Ok (VTuple (slice_list (map VTuple R) None (Some h)))
+    else if n <? h
+         then Ok (VTuple (map VTuple R ++
+                          seq_mul [VTuple (seq_mul [excelutil.c_NA_ERROR] w)] (h - n)))
+         else Ok (VTuple (map VTuple R))))
+  = Ok (VTuple (map VTuple (fit_axis h n (seq_mul [NA] w) R))).
+Proof.
+  intros Hh. unfold fit_axis.
+  assert (S1 : forall k (X : list (list pyval)), seq_mul (map VTuple X) k = map VTuple (seq_mul X k))
+    by (intros; unfold seq_mul; apply rep_list_map).
+  destruct (n =? 1); cbn [bind andb].
+  - destruct (h =? 1); cbn [negb].
+    + destruct (h <? n); [rewrite slice_firstn, firstn_map by lia; reflexivity|].
+      destruct (n <? h); [|reflexivity].
+      rewrite map_app, <- S1. reflexivity.
+    + rewrite S1. reflexivity.
+  - destruct (h <? n); [rewrite slice_firstn, firstn_map by lia; reflexivity|].
+    destruct (n <? h); [|reflexivity].
+    rewrite map_app, <- S1. reflexivity.
+Qed.
+
+Lemma fit_translated r0 rest h w : 1 <= h -> 1 <= w ->
+  arrayfit.f__ArrayFormulaContext_fit_to_range (VTuple [VInt h; VInt w]) (matrix (r0 :: rest))
+  = Ok (matrix (fit_spec h w (r0 :: rest))).
+Proof.
+  intros Hh Hw. unfold arrayfit.f__ArrayFormulaContext_fit_to_range, matrix.
+  set (rows := r0 :: rest).
+  unfold attr_ctx_address, attr_size, attr_height, attr_width, py_address_size.
+  repeat (progress (py_step; rewrite ?list_like_tuple, ?(index0 rows r0 rest eq_refl), ?zlen_map)).
+  unfold fit_spec. replace (hd [] rows) with r0 by reflexivity.
+  unfold fit_axis at 2.
+  destruct (zlen r0 =? 1) eqn:E1; cbn [andb bind].
+  - destruct (w =? 1) eqn:E2; cbn [negb].
+    + (* width 1 result, width 1 target: unchanged *)
+      destruct (w <? zlen r0) eqn:E3; [apply Z.eqb_eq in E1, E2; apply Z.ltb_lt in E3; lia|].
+      destruct (zlen r0 <? w) eqn:E4; [apply Z.eqb_eq in E1, E2; apply Z.ltb_lt in E4; lia|].
+      rewrite map_id. apply height_ok. exact Hh.
+    + rewrite (genexp_rows _ (fun r => seq_mul r w)) by (intros; reflexivity).
+      py_run. apply height_ok. exact Hh.
+  - destruct (w <? zlen r0) eqn:E3.
+    + rewrite (genexp_rows _ (fun r => slice_list r None (Some w))) by (intros; reflexivity).
+      py_run. rewrite height_ok by exact Hh.
+      do 3 f_equal. f_equal. apply map_ext. intros r. apply slice_firstn. lia.
+    + destruct (zlen r0 <? w) eqn:E4.
+      * rewrite (genexp_rows _ (fun r => r ++ seq_mul [excelutil.c_NA_ERROR] (w - zlen r0)))
+          by (intros; reflexivity).
+        py_run. apply height_ok. exact Hh.
+      * rewrite map_id. apply height_ok. exact Hh.
+Qed.
+
+Lemma fit_translated_scalar v h w : scalar_like v = true -> 1 <= h -> 1 <= w ->
+  arrayfit.f__ArrayFormulaContext_fit_to_range (VTuple [VInt h; VInt w]) v
+  = Ok (matrix (fit_spec h w [[v]])).
+Proof.
+  intros Hs Hh Hw.
+  assert (LL : excelutil.f_list_like v = Ok (VBool false)) by (destruct v; try discriminate; reflexivity).
+  unfold arrayfit.f__ArrayFormulaContext_fit_to_range, matrix.
+  unfold attr_ctx_address, attr_size, attr_height, attr_width, py_address_size.
+  repeat (progress (py_step; rewrite ?LL)).
+  change [VTuple [v]] with (map VTuple [[v]]).
+  unfold fit_spec. replace (hd [] [[v]]) with [v] by reflexivity.
+  replace (zlen [[v]]) with 1 by reflexivity. replace (zlen [v]) with 1 by reflexivity.
+  unfold fit_axis at 2. replace (1 =? 1) with true by reflexivity. cbn [andb].
+  replace (w <? 1) with false by (symmetry; apply Z.ltb_ge; lia).
+  destruct (w =? 1) eqn:E2; cbn [negb].
+  - destruct (1 <? w) eqn:E4; [apply Z.eqb_eq in E2; apply Z.ltb_lt in E4; lia|].
+    rewrite map_id. exact (height_ok h w 1 [[v]] Hh).
+  - rewrite (genexp_rows _ (fun r => seq_mul r w)) by (intros; reflexivity).
+    py_run. exact (height_ok h w 1 _ Hh).
+Qed.
+
+Lemma fit_translated_no_context v :
+  arrayfit.f__ArrayFormulaContext_fit_to_range VNone v = Ok v.
+Proof. reflexivity. Qed.
+
+(* ------------------------------------------------ the fit theorems, packaged *)
+Definition fit := arrayfit.f__ArrayFormulaContext_fit_to_range.
+Definition target (h w : Z) : pyval := VTuple [VInt h; VInt w].
+
+Lemma fit_shape rows C h w :
+  rows <> [] -> (1 <= C)%nat -> rectangular C rows -> 1 <= h -> 1 <= w ->
+  exists out, fit (target h w) (matrix rows) = Ok (matrix out)
+              /\ length out = Z.to_nat h /\ rectangular (Z.to_nat w) out.
+Proof.
+  intros Hne HC Hrect Hh Hw. exists (fit_spec h w rows). split.
+  - destruct rows as [|r0 rest]; [congruence|]. apply fit_translated; assumption.
+  - apply (fit_spec_shape rows C); assumption.
+Qed.
+
+Lemma fit_elem_at rows C h w :
+  rows <> [] -> (1 <= C)%nat -> rectangular C rows -> 1 <= h -> 1 <= w ->
+  exists out, fit (target h w) (matrix rows) = Ok (matrix out)
+              /\ forall i j, (i < Z.to_nat h)%nat -> (j < Z.to_nat w)%nat ->
+                             elem2 out i j = Some (fit_elem rows i j).
+Proof.
+  intros Hne HC Hrect Hh Hw. exists (fit_spec h w rows). split.
+  - destruct rows as [|r0 rest]; [congruence|]. apply fit_translated; assumption.
+  - intros i j Hi Hj. apply (fit_spec_elem rows C); assumption.
+Qed.
+
+Lemma fit_scalar v h w : scalar_like v = true -> 1 <= h -> 1 <= w ->
+  exists out, fit (target h w) v = Ok (matrix out)
+              /\ length out = Z.to_nat h /\ rectangular (Z.to_nat w) out
+              /\ forall i j, (i < Z.to_nat h)%nat -> (j < Z.to_nat w)%nat -> elem2 out i j = Some v.
+Proof.
+  intros Hs Hh Hw. exists (fit_spec h w [[v]]).
+  assert (R1 : rectangular 1 [[v]]) by (repeat constructor).
+  assert (N1 : [[v]] <> []) by discriminate.
+  split; [apply fit_translated_scalar; assumption|].
+  destruct (fit_spec_shape [[v]] 1%nat h w N1 (le_n 1) R1 Hh Hw) as [L Rc].
+  split; [exact L|]. split; [exact Rc|].
+  intros i j Hi Hj. rewrite (fit_spec_elem [[v]] 1%nat h w i j N1 (le_n 1) R1 Hh Hw Hi Hj).
+  reflexivity.
+Qed.
+
+(* the cases of fit_elem spelled out: inside, single row, single column, outside *)
+Lemma fit_elem_cases rows R C i j :
+  length rows = R -> rectangular C rows -> rows <> [] ->
+  (forall x, elem2 rows (if Nat.eqb R 1 then O else i) (if Nat.eqb C 1 then O else j) = Some x ->
+             fit_elem rows i j = x)
+  /\ ((R <> 1%nat /\ (R <= i)%nat) \/ (C <> 1%nat /\ (C <= j)%nat) -> fit_elem rows i j = NA).
+Proof.
+  intros HR Hrect Hne. destruct rows as [|r0 rest]; [congruence|].
+  pose proof (hd_length C r0 rest Hrect) as Hhd.
+  unfold fit_elem. rewrite Hhd, HR. split.
+  - intros x Hx. rewrite Hx. reflexivity.
+  - intros Hout. unfold elem2.
+    destruct (nth_error (r0 :: rest) (if Nat.eqb R 1 then O else i)) as [r|] eqn:Er; [|reflexivity].
+    assert (Hr : length r = C).
+    { unfold rectangular in Hrect. rewrite Forall_forall in Hrect. apply Hrect.
+      eapply nth_error_In. exact Er. }
+    destruct Hout as [[HR1 HRi]|[HC1 HCj]].
+    + replace (Nat.eqb R 1) with false in Er by (symmetry; apply Nat.eqb_neq; exact HR1).
+      assert (nth_error (r0 :: rest) i <> None) as N by congruence.
+      apply nth_error_Some in N. lia.
+    + replace (Nat.eqb C 1) with false by (symmetry; apply Nat.eqb_neq; exact HC1).
+      destruct (nth_error r j) eqn:Ej; [|reflexivity].
+      assert (nth_error r j <> None) as N by congruence. apply nth_error_Some in N. lia.
+Qed.
